@@ -43,3 +43,9 @@ _p("C13", "proof",
    "remove_overlaps are executed symbolically from /repo's source for 1-4 operands x every rule assignment x the three operations, and shown to "
    "fold the operands left to right, each under its own rule, simplify with fix_winding, return the engine's output and propagate engine failures.",
    [PATHOPS, BRIDGE, CPY])
+
+_p("C18", "proof",
+   "Relative to the assumed area measurement of pathops: SVGShape.might_paint (with apply_style_attribute and as_cmd_seq) is executed symbolically for "
+   "every combination of geometry class, fill, stroke, display/style and symbolic opacities / stroke width / area, and shown equivalent to the paint "
+   "specification; remove_empty_subpaths/subpaths are shown to judge each subpath with its path's own paint and to leave kept subpaths in place.",
+   [PATHOPS, BRIDGE, CPY])
